@@ -495,6 +495,59 @@ func init() {
 		fmt.Fprintf(&sb, "/-- `Truncate.makeString` writes `Before.String()` as it is (already quoted) instead of quoting it again -/\ndef beforeQuotedOnce : Bool := %s\n", leanBool(beforeOnce))
 		fmt.Fprintf(&sb, "/-- `DateTime.String()` prints through `time.Time.Format(layout)` (false: through `time.Time.String()`) -/\ndef dateUsesFormat : Bool := %s\n", leanBool(usesFormat))
 		fmt.Fprintf(&sb, "/-- the layout given to `Format` (empty when `String()` is used): %s -/\ndef dateLayout : List UInt8 := %s\n\n", strings.Replace(layout, "-/", "- /", -1), c12bytesLit(layout))
+		// ---- the LQL date format list: the string literals handed to the `NewParser(...)` call that initialises a package-level
+		// variable of pkg/lql/datetime.go (matched by shape, not by the variable's name)
+		{
+			df := parseFile("pkg/lql/datetime.go")
+			var formats []string
+			found := false
+			for _, d := range df.Decls {
+				gd, ok := d.(*ast.GenDecl)
+				if !ok || gd.Tok != token.VAR {
+					continue
+				}
+				for _, sp := range gd.Specs {
+					vs, ok := sp.(*ast.ValueSpec)
+					if !ok {
+						continue
+					}
+					for _, v := range vs.Values {
+						ce, ok := v.(*ast.CallExpr)
+						if !ok || len(ce.Args) < 1 {
+							continue
+						}
+						se, ok := ce.Fun.(*ast.SelectorExpr)
+						if !ok || se.Sel.Name != "NewParser" {
+							continue
+						}
+						cl, ok := ce.Args[0].(*ast.CompositeLit)
+						if !ok {
+							continue
+						}
+						found = true
+						for _, e := range cl.Elts {
+							if bl, ok := e.(*ast.BasicLit); ok && bl.Kind == token.STRING {
+								if u, err := strconv.Unquote(bl.Value); err == nil {
+									formats = append(formats, u)
+								}
+							}
+						}
+					}
+				}
+			}
+			if !found {
+				problem("pkg/lql/datetime.go: no package-level variable initialised by NewParser([]string{...})")
+			}
+			sb.WriteString("/-- the formats of the LQL date parser (pkg/lql/datetime.go), in order -/\ndef lqlDateFormats : List (List UInt8) := [\n")
+			for i, f := range formats {
+				sep := ","
+				if i == len(formats)-1 {
+					sep = ""
+				}
+				fmt.Fprintf(&sb, "  %s%s  -- %s\n", c12bytesLit(f), sep, strings.Replace(f, "-/", "- /", -1))
+			}
+			sb.WriteString("]\n\n")
+		}
 		// ---- strconv.IsPrint
 		sb.WriteString("/-- maximal ranges of runes with `strconv.IsPrint` (Go toolchain that builds the harness) -/\ndef isPrintRanges : Array (Nat × Nat) := #[")
 		first := true
